@@ -769,3 +769,92 @@ def native_C13(tier, seed):
             fails.append({"id": f"C13-resolve-xp-{sname}", "obligation": "namespace of the rebuilt instance", "what": f"resolve_xp('{sxp.__name__}') is {getattr(resolve_xp(sxp.__name__), '__name__', None)}", "input": {"namespace": sxp.__name__}})
     return {"what": "save -> load -> compare on real HDF5 files: every sample class x namespace x dtype x optional-field subset x flat/nested layout x parameter names that are not alphabetically sorted; configuration dictionaries with None, {}, nested dicts, string lists, numpy scalars and arrays; every transform class; zuko (default and non-default options) and flowjax flows; SMCHistory with stored populations; namespace names",
             "bound": f"{cases} round trips", "cases": cases, "failures": fails}
+
+
+# ------------------------------------------------------------------------------------------ C03
+def native_C03(tier, seed):
+    import io
+    import h5py
+    import torch
+    from aspire.flows.torch.flows import ZukoFlow
+    from aspire.transforms import FlowTransform
+    import array_api_compat.torch as xt
+    rng = np.random.default_rng(seed)
+    fails, cases = [], 0
+
+    def quad2(flow, lo, hi, npts=120, as_np=lambda v: np.asarray(v.detach() if hasattr(v, "detach") else v, dtype=float)):
+        gx = np.linspace(lo[0], hi[0], npts + 2)[1:-1]
+        gy = np.linspace(lo[1], hi[1], npts + 2)[1:-1]
+        G = np.stack(np.meshgrid(gx, gy, indexing="ij"), -1).reshape(-1, 2)
+        lp = as_np(flow.log_prob(G))
+        return float(np.exp(lp).sum() * (gx[1] - gx[0]) * (gy[1] - gy[0]))
+
+    backends = ["zuko"] + (["flowjax"] if tier == "thorough" else [])
+    for backend in backends:
+        for bt in ("logit", "probit", None):
+            for dt_name in ("float32", "float64"):
+                if backend == "flowjax" and dt_name == "float64":
+                    continue
+                lo, hi = np.array([-1.0, 0.0]), np.array([3.0, 5.0])
+                bounds = {"a": [lo[0], hi[0]], "b": [lo[1], hi[1]]} if bt else None
+                inp = {"backend": backend, "bounded_transform": bt, "dtype": dt_name, "seed": seed}
+
+                def mkflow():
+                    if backend == "zuko":
+                        tr = FlowTransform(parameters=["a", "b"], prior_bounds=bounds, bounded_to_unbounded=bool(bt), bounded_transform=bt or "logit", xp=xt, dtype=dt_name)
+                        return ZukoFlow(dims=2, data_transform=tr, hidden_features=[16], transforms=2, dtype=dt_name, seed=seed + 1)
+                    import jax
+                    import jax.numpy as jnp
+                    from aspire.flows.jax.flows import FlowJax
+                    tr = FlowTransform(parameters=["a", "b"], prior_bounds=bounds, bounded_to_unbounded=bool(bt), bounded_transform=bt or "logit", xp=jnp, dtype=dt_name)
+                    return FlowJax(dims=2, key=jax.random.key(seed), data_transform=tr, dtype=dt_name)
+                as_np = lambda v: np.asarray(v.detach() if hasattr(v, "detach") else v, dtype=float)  # noqa: E731
+                try:
+                    fl = mkflow()
+                    X1 = np.column_stack([rng.uniform(-0.5, 2.5, 300), rng.uniform(0.5, 4.5, 300)])
+                    X2 = np.column_stack([rng.normal(1.0, 0.2, 300).clip(-0.9, 2.9), rng.normal(2.5, 0.1, 300).clip(0.1, 4.9)])
+                    stages = [("untrained", None), ("fit", X1), ("refit on data with another spread", X2)]
+                    for stage, data in stages:
+                        if data is not None:
+                            fl.fit(data, **(dict(n_epochs=2) if backend == "zuko" else dict(max_epochs=2)))
+                        cases += 1
+                        x, lq = fl.sample_and_log_prob(400)
+                        x_np, lq_np = as_np(x), as_np(lq)
+                        lp_np = as_np(fl.log_prob(x))
+                        if bt:
+                            if not ((x_np >= lo).all() and (x_np <= hi).all()):
+                                fails.append({"id": f"C03-bounds-{backend}-{bt}-{dt_name}-{stage}", "obligation": "logitT_inv_mem", "what": f"{stage}: draws outside the declared bounds", "input": inp})
+                            u = (x_np - lo) / (hi - lo)
+                            interior = ((u > 1e-3) & (u < 1 - 1e-3)).all(-1)
+                        else:
+                            interior = np.ones(len(x_np), bool)
+                        tol = 5e-3 if dt_name == "float32" else 1e-6
+                        if interior.any() and np.abs(lq_np - lp_np)[interior].max() > tol * max(1.0, np.abs(lp_np[interior]).max()):
+                            fails.append({"id": f"C03-agree-{backend}-{bt}-{dt_name}-{stage}", "obligation": "the log-density returned with the draws equals log_prob", "what": f"{stage}: max |log_q - log_prob(x)| = {np.abs(lq_np - lp_np)[interior].max():.3g}", "input": inp})
+                        if bt and stage != "untrained":
+                            Z = quad2(fl, lo, hi, as_np=as_np)
+                            if abs(Z - 1) > 0.03:
+                                fails.append({"id": f"C03-normalised-{backend}-{bt}-{dt_name}-{stage}", "obligation": "normalised", "what": f"{stage}: the density integrates to {Z:.4f} over the declared box", "input": inp})
+                    # save / load
+                    cases += 1
+                    with h5py.File(io.BytesIO(), "w") as f:
+                        fl.save(f, "flow")
+                        g = type(fl).load(f, "flow")
+                    xq = X1[:50]
+                    d = np.abs(as_np(fl.log_prob(xq)) - as_np(g.log_prob(xq))).max()
+                    if d > (1e-4 if dt_name == "float32" else 1e-9):
+                        fails.append({"id": f"C03-reload-{backend}-{bt}-{dt_name}", "obligation": "save/load", "what": f"log_prob changes by {d:.3g} across save/load", "input": inp})
+                except Exception as e:  # noqa: BLE001
+                    fails.append({"id": f"C03-raise-{backend}-{bt}-{dt_name}", "obligation": "C03", "what": f"{type(e).__name__}: {str(e)[:160]}", "input": inp})
+    # bounds given in another order than the parameters (dict order must not matter)
+    cases += 1
+    try:
+        tr = FlowTransform(parameters=["a", "b"], prior_bounds={"b": [10.0, 20.0], "a": [0.0, 1.0]}, bounded_to_unbounded=True, bounded_transform="logit", xp=xt)
+        fl = ZukoFlow(dims=2, data_transform=tr, hidden_features=[8], transforms=1)
+        x = np.asarray(fl.sample(300))
+        if not ((x[:, 0] >= 0).all() and (x[:, 0] <= 1).all() and (x[:, 1] >= 10).all() and (x[:, 1] <= 20).all()):
+            fails.append({"id": "C03-bounds-dict-order", "obligation": "bounds attached to the right columns", "what": f"draws of a in [{x[:,0].min():.3g},{x[:,0].max():.3g}] (declared [0,1]), b in [{x[:,1].min():.3g},{x[:,1].max():.3g}] (declared [10,20])", "input": {"prior_bounds_order": ["b", "a"]}})
+    except Exception as e:  # noqa: BLE001
+        fails.append({"id": "C03-bounds-dict-order-raise", "obligation": "C03", "what": f"{type(e).__name__}: {e}", "input": {}})
+    return {"what": "real zuko (quick) and flowjax (thorough) flows x {logit, probit, no bounded transform} x float32/float64: pointwise agreement of the log-density returned with draws and log_prob at those draws (outside a 1e-3 margin), draws inside the bounds, 2-D quadrature of exp(log_prob) over the box, untrained / after a 2-epoch fit / after a refit on data with another spread, save/load; bounds given in another order than the parameters",
+            "bound": f"{cases} flow states", "cases": cases, "failures": fails}
